@@ -6,9 +6,18 @@ from vlib.core import Result
 NAME = "adv"
 LEAN_MODULE = "BluetoeModel.Adv"
 DRIVER = "drv_adv"
-HARNESS_DESC = "harness/adv.cpp (real details::advertiser<> + channel maps + start/stop + white_list<4> in a mock link layer)"
+HARNESS_DESC = ("harness/adv.cpp (real details::advertiser<> + channel maps + start/stop + white_list<4> in a mock link layer); "
+                "C25 also harness/adv/adv_ll.cpp (real link_layer<> with white_list<4> on tests/test_tools/test_radio) and "
+                "harness/adv/nrf_scan.cpp (real nrf52.hpp is_valid_scan_request on emulated RADIO registers)")
 HARNESS = {
     "default": dict(src="harness/adv.cpp", repo_srcs=["bluetoe/utility/address.cpp", "bluetoe/link_layer/delta_time.cpp"]),
+    "ll": dict(src="harness/adv/adv_ll.cpp",
+               repo_srcs=["tests/test_tools/test_radio.cpp", "tests/test_tools/hexdump.cpp", "tests/test_tools/buffer_io.cpp",
+                          "tests/test_tools/address_io.cpp", "bluetoe/link_layer/channel_map.cpp",
+                          "bluetoe/link_layer/connection_details.cpp", "bluetoe/link_layer/delta_time.cpp",
+                          "bluetoe/utility/address.cpp"],
+               includes=["tests/test_tools"],
+               ldflags=["-lboost_unit_test_framework"]),
 }
 
 # configuration -> (variable map, variable interval, fixed interval ms, auto start, types)
@@ -315,9 +324,14 @@ def addr_bytes(a):
     return (a >> 1).to_bytes(6, "little")
 
 
+# LLData the real link layer accepts: AA, CRCInit, WinSize 3, WinOffset 11, interval 30 ms, latency 0,
+# timeout 720 ms, all data channels, hop 10 / SCA 5
+VALID_LLDATA = bytes.fromhex("5ab39aaf0881f6030b00180000004800ffffffff1faa")
+
+
 def connect_ind(local, init, length=34, pdu_type=5, body_len=34, tx=None, rx=None, rfu=0):
     h0 = pdu_type | rfu | (0x40 if (init & 1 if tx is None else tx) else 0) | (0x80 if (local & 1 if rx is None else rx) else 0)
-    body = addr_bytes(init) + addr_bytes(local) + bytes((7 * i + 3) & 0xff for i in range(22))
+    body = addr_bytes(init) + addr_bytes(local) + VALID_LLDATA
     body = (body + bytes(64))[:body_len]
     return bytes([h0, length & 0xff]) + body
 
@@ -398,6 +412,132 @@ def gen_c25_session(rng, cfg):
             ops.append("change %d" % rng.choice(types))
             ops.append("timeout")
     return ops
+
+
+def proj_ll(op, line):
+    """real link layer: `idle` (no advertising PDU scheduled, nothing can be received) is `rej`"""
+    if line == "idle":
+        return "rej"
+    return proj_accept(op, line)
+
+
+def expect_accept(types_selected, local, target, conn_filter, wl, pdu):
+    """the oracle of monitor_c25 for one CONNECT_IND (used by the generator to re-start advertising
+    after an accepted request; a wrong prediction shows as a disagreement, never hides one)"""
+    h0, ln, body = pdu[0], pdu[1], pdu[2:]
+    if not (len(body) == 34 and (h0 & 0x0f) == 5 and (ln & 0x3f) == 34):
+        return False
+    init = int.from_bytes(body[0:6], "little") * 2 + (1 if h0 & 0x40 else 0)
+    adva = int.from_bytes(body[6:12], "little") * 2 + (1 if h0 & 0x80 else 0)
+    if adva != local:
+        return False
+    if types_selected == 1:
+        if target is None or init != target:
+            return False
+    elif types_selected != 0:
+        return False
+    return (not conn_filter) or init in wl
+
+
+LL_MUTATIONS = ([("valid", {})]
+                + [("length-%d" % v, {"length": v}) for v in (0, 12, 33, 35, 34 + 64, 34 + 128, 255)]
+                + [("type-%d" % v, {"pdu_type": v}) for v in (0, 1, 2, 3, 4, 6, 7, 13, 15)]
+                + [("body-%d" % v, {"body_len": v}) for v in (0, 6, 12, 33)]
+                + [("adva-bit-%d" % b, {"adva_bit": b}) for b in (0, 23, 47)]
+                + [("rxadd", {"rxadd": 1}), ("txadd", {"txadd": 1})]
+                + [("inita-bit-%d" % b, {"inita_bit": b}) for b in (0, 24, 47)]
+                + [("rfu-%x" % v, {"rfu": v}) for v in (0x10, 0x20, 0x30)])
+
+
+def mutated_connect_ind(local, init, mut):
+    kw = {k: v for k, v in mut.items() if k in ("length", "pdu_type", "body_len", "rfu")}
+    loc = local
+    if "adva_bit" in mut:
+        loc = local ^ (2 << mut["adva_bit"])
+    if "inita_bit" in mut:
+        init = init ^ (2 << mut["inita_bit"])
+    if "rxadd" in mut:
+        kw["rx"] = 1 - (local & 1)
+    if "txadd" in mut:
+        kw["tx"] = 1 - (init & 1)
+    return connect_ind(loc, init, **kw)
+
+
+def ll_session(cfg, sel, local, target, conn_filter, wl, requests, rng=None):
+    """one session for the real link layer: set up, then `requests` = [(initiator, mutation)];
+    after every request the oracle expects to be accepted: connection lost, advertising restarted"""
+    auto = CFG[cfg][3]
+    types = CFG[cfg][4]
+    ops = ["reset %d" % cfg]
+    if local != DEFAULT_LOCAL:
+        ops.append("local %d" % local)
+    if 1 in types and target is not None:
+        ops.append("direct %d" % target)
+    if len(types) > 1:
+        ops.append("change %d" % sel)
+    for a in wl:
+        ops.append("wladd %d" % a)
+    ops.append("filter %d" % (1 if conn_filter else 0))
+    ops.append("llstart")
+    if not auto:
+        ops.append("start")
+    tgt = target if (target is not None and target != 1) else None
+    for init, mut in requests:
+        pdu = mutated_connect_ind(local, init, mut)
+        ops.append("recv " + pdu.hex())
+        if expect_accept(sel, local, tgt, conn_filter, set(wl), pdu):
+            ops += ["llstop", "llstart"]
+            if not auto:
+                ops.append("start")
+    return ops
+
+
+LL_TYPES = [(0, 0), (5, 1), (6, 2), (7, 3), (4, 0), (4, 1), (4, 2), (4, 3), (1, 0)]
+
+
+def enum_ll_sessions():
+    """the four advertising types (single type link layers and the multiple type advertiser) x connection
+    filter {off, on + initiator listed, on + initiator not listed, on + initiator listed with the other
+    address type} x own address type x every single field mutation of a valid CONNECT_IND"""
+    sessions = []
+    init = 2 * 0x112233445566
+    other = 2 * 0x0badc0ffee42 + 1
+    for cfg, sel in LL_TYPES:
+        for local in (DEFAULT_LOCAL, 2 * 0x665544332211):
+            for fname, conn_filter, wl in (("off", False, []), ("listed", True, [init, other]), ("not-listed", True, [other]),
+                                           ("other-type", True, [init ^ 1])):
+                if cfg == 1 and (local != DEFAULT_LOCAL or fname in ("not-listed", "other-type")):
+                    continue
+                target = init if sel == 1 else None
+                reqs = [(init, m) for _, m in LL_MUTATIONS]
+                sessions.append(ll_session(cfg, sel, local, target, conn_filter, wl, reqs))
+        # directed advertising: wrong / missing target
+        if sel == 1:
+            sessions.append(ll_session(cfg, sel, DEFAULT_LOCAL, other, False, [], [(init, {}), (other, {}), (other ^ 1, {}), (other, {"txadd": 1})]))
+            sessions.append(ll_session(cfg, sel, DEFAULT_LOCAL, None, False, [], [(init, {}), (0, {})]))
+    return sessions
+
+
+def gen_ll_session(rng, cfg, sel):
+    universe = [rng.randrange(2, 1 << 49) for _ in range(3)]
+    universe.append(universe[0] ^ 1)
+    universe.append(universe[1] ^ 2)
+    local = rng.choice([DEFAULT_LOCAL, rng.randrange(2, 1 << 49), rng.randrange(2, 1 << 49) | 1])
+    target = rng.choice(universe + [None]) if sel == 1 else None
+    wl = rng.sample(universe, rng.randrange(0, 5))
+    reqs = []
+    for _ in range(rng.randrange(5, 14)):
+        init = rng.choice(universe + ([target] if target is not None else []))
+        if rng.random() < 0.4:
+            reqs.append((init, {}))
+        else:
+            name, mut = rng.choice(LL_MUTATIONS)
+            mut = dict(mut)
+            for k in ("adva_bit", "inita_bit"):
+                if k in mut:
+                    mut[k] = rng.randrange(48)
+            reqs.append((init, mut))
+    return ll_session(cfg, sel, local, target, rng.random() < 0.6, wl, reqs)
 
 
 def monitor_c25(ops, outs):
@@ -521,7 +661,43 @@ def run_c25(ctx, replay_path=None):
                 o = ctx.run_impl([cand])[0]
                 return any(h[0] == key for h in monitor_c25(cand, o["out"]))
             res.failures.append({"key": key, "what": what, "ops": ctx.shrink(ops[:k + 1], fails, budget=60)})
-    res.samples = [" ; ".join(s[:10])[:400] for s in sessions[nc:nc + 2]]
+    # ---- the same decision on the REAL link_layer<> driven on tests/test_tools/test_radio --------------
+    ll_sessions = enum_ll_sessions()
+    for i in range(600 if ctx.thorough else 60):
+        cfg, sel = LL_TYPES[i % len(LL_TYPES)]
+        ll_sessions.append(gen_ll_session(ctx.rng, cfg, sel))
+    impl_ll, model_ll, dis_ll = ctx.run_pair(ll_sessions, proj_ll, key="ll")
+    for d in dis_ll:
+        ops = ll_sessions[d["session"]]
+        if len(res.disagreements) < 2:
+            ops = ctx.shrink_disagreement(ops, proj_ll, key="ll")
+        res.disagreements.append(dict(d, ops=ops, harness="ll"))
+    res.exhaustive = True
+    res.extra["exhaustive_small_scope"] = ("real link_layer<> on test_radio: 4 advertising types (single type link layers + multiple type "
+                                           "advertiser) x connection filter {off, listed, not listed, listed with other address type} x "
+                                           "own address type x %d single field mutations of a valid CONNECT_IND" % len(LL_MUTATIONS))
+    for ops, r in zip(ll_sessions, impl_ll):
+        outs = ["rej -" if o == "idle" else o for o in r["out"]]
+        res.sessions += 1
+        res.evaluations += len(outs)
+        res.count("ll:cfg:%s" % ops[0].split()[1])
+        acc = sum(1 for o in outs if o.startswith("acc"))
+        rej = sum(1 for o in outs if o.startswith("rej"))
+        res.count("ll:connect:accepted", acc)
+        res.count("ll:connect:rejected", rej)
+        res.count("ll:idle", sum(1 for o in r["out"] if o == "idle"))
+        if acc and rej:
+            res.distinct.add(hash(tuple(ops)))
+        if r["crash"]:
+            res.failures.append({"key": "C25:ll:crash:" + r["crash"].split(" @")[0], "what": r["crash"], "ops": ops[:len(outs) + 1]})
+            continue
+        for key, what, k in monitor_c25(ops, outs):
+            res.count("failure:" + key)
+            if key in seen:
+                continue
+            seen.add(key)
+            res.failures.append({"key": key, "what": "real link_layer<>: " + what, "ops": ops[:k + 1], "harness": "ll"})
+    res.samples = [" ; ".join(s[:10])[:400] for s in sessions[nc:nc + 2]] + [" ; ".join(ll_sessions[0][:8])[:400]]
     res.extra["scan_request_half"] = ("only the scan filter of white_list.hpp is tied to the code; advertising_type_base::is_valid_scan_request "
                                       "is dead code that does not compile when instantiated, the nRF52 ISR predicate "
                                       "(nrf52.hpp::is_valid_scan_request) is not built on the host: both are modelled only")
@@ -552,7 +728,7 @@ PROPS = {
         witnesses=["BluetoeModel.Adv.nrf_scan_filter_witness"],
         imports=["BluetoeModel.Adv.PropsC25"],
         run=run_c25,
-        harness_keys=["default"],
+        harness_keys=["default", "ll"],
         level="partial",
         technique="Lean 4 exact characterisation (iff) of handle_adv_receive for all PDUs/states + differential correspondence on the real advertiser + white list; scan half modelled only",
         level_text="connect_accepted_iff: a connection is entered iff the PDU is a 2+34 octet CONNECT_IND with AdvA/RxAdd = own address/type, the advertising type is connectable (directed: InitA/TxAdd = target, target set) and the initiator passes the connection filter.",
